@@ -111,6 +111,7 @@ def check(ctx: Ctx) -> None:
     ctx.rule('C18.c', 'no auto-discovered lazily filled cache of the classes in the anchored modules can be stale at the exit of a public method (dependencies = what the fill expression reads, incl. mutating calls on held sub-objects)', floor=4)
     auto_memo_check(ctx, 'C18.c', [RS, SRS, DMRS, 'pyphysim/reference_signals/channel_estimation.py'])
     _check_inputs_untouched(ctx)
+    _check_extension(ctx)
     # ------------------------------------------------------------------ C18.b
     ctx.rule('C18.b', 'shift grids 8 (SRS) / 12 (DMRS); shift assertion and phase; root tables 30 x 12/24 over {+-1,+-3}', floor=5)
     for path, fname, want in ((SRS, 'get_srs_seq', 8), (DMRS, 'get_dmrs_seq', 12)):
@@ -155,6 +156,64 @@ def check(ctx: Ctx) -> None:
         if not ok:
             ctx.violation('C18.b', name, 'root table is not 30 rows (keys "0".."29") of %d phases from {+-1,+-3}: %s'
                           % (width, detail), RS, 1, operand='table')
+
+
+def _check_extension(ctx: Ctx) -> None:
+    """C18.e: the extended sequence is whole copies of the base sequence followed by a prefix of it (starting at index 0) and
+    the piece lengths add up to the requested size - as terms, on both branches."""
+    from .. import terms as T
+    M = ctx.model
+    ctx.rule('C18.e', 'cyclic extension: pieces are whole copies plus a prefix from index 0, and their lengths sum to `size` (terms)', floor=2)
+    fn = M.func(ZC, 'get_extended_ZF')
+    seq, size = fn.params[0], fn.params[1]
+    loc = T.local_terms(M, fn)
+    env = T.Env(M, fn)
+    env.vars.update(loc)
+    RS = loc.get('root_seq_size', T.Term.sym(seq + '.size'))
+    want = T.Term.sym(size)
+    branches = [n for n in walk_no_nested(fn.node) if isinstance(n, ast.If)]
+    if len(branches) != 1:
+        ctx.error('C18.e: get_extended_ZF no longer has its two branches')
+
+    def piece_len(e: ast.AST):
+        if isinstance(e, ast.Name) and e.id == seq:
+            return RS, True
+        if isinstance(e, ast.Subscript) and isinstance(e.value, ast.Name) and e.value.id == seq and isinstance(e.slice, ast.Slice):
+            lo = e.slice.lower
+            from0 = lo is None or const_value(lo) == 0
+            return T.from_ast(e.slice.upper, env), from0
+        raise T.Unknown('piece %s' % norm(e))
+
+    for name, body in (('many-repeats', branches[0].body), ('one-repeat', branches[0].orelse)):
+        construct = 'get_extended_ZF:' + name
+        ctx.instance('C18.e', construct)
+        total = T.Term.const(0)
+        from0_all = True
+        try:
+            lists = {}
+            for s_ in body:
+                if isinstance(s_, ast.Assign) and isinstance(s_.targets[0], ast.Name) and isinstance(s_.value, ast.List):
+                    lists[s_.targets[0].id] = [piece_len(e) for e in s_.value.elts]
+                elif isinstance(s_, ast.AugAssign) and isinstance(s_.op, ast.Mult) and isinstance(s_.target, ast.Name) and s_.target.id in lists:
+                    k = T.from_ast(s_.value, env)
+                    lists[s_.target.id] = [(l * k, f0) for l, f0 in lists[s_.target.id]]
+                elif isinstance(s_, ast.Expr) and isinstance(s_.value, ast.Call) and isinstance(s_.value.func, ast.Attribute) \
+                        and s_.value.func.attr == 'append' and isinstance(s_.value.func.value, ast.Name) and s_.value.func.value.id in lists:
+                    lists[s_.value.func.value.id].append(piece_len(s_.value.args[0]))
+                elif isinstance(s_, ast.Assign) and isinstance(s_.value, ast.Call) and norm(s_.value.func) in ('np.hstack', 'np.concatenate'):
+                    a = s_.value.args[0]
+                    pieces = lists[a.id] if isinstance(a, ast.Name) and a.id in lists else [piece_len(e) for e in a.elts]
+                    for l, f0 in pieces:
+                        total = total + l
+                        from0_all = from0_all and f0
+        except (T.Unknown, AttributeError, KeyError) as e:
+            ctx.error('C18.e: extension branch %s not recognised (%s)' % (name, e))
+        # size // RS * RS stays symbolic: substitute the floor division atom consistently (it cancels in the sum)
+        ok = total == want and from0_all
+        ctx.obligation('C18.e', construct, ok, {'total_length': total.pretty(), 'expected': want.pretty(), 'prefix_from_index_0': from0_all})
+        if not ok:
+            ctx.violation('C18.e', 'get_extended_ZF', 'branch %s builds a sequence of length `%s` (prefix from index 0: %s), not a cyclic '
+                          'extension of length `%s`' % (name, total.pretty(), from0_all, want.pretty()), fn.path, fn.lineno, operand=name)
 
 
 def _check_inputs_untouched(ctx: Ctx) -> None:
@@ -214,6 +273,10 @@ MUTANTS = [
            'CazacBasedWithOCCChannelEstimator.estimate_channel_freq_domain',
            [('replace', 'r_mean = np.mean(r * self.cover_code[:, np.newaxis], axis=0)', 'r *= self.cover_code[:, np.newaxis]\n        r_mean = np.mean(r, axis=0)')],
            r'C18\.d:CazacBasedWithOCCChannelEstimator\.estimate_channel_freq_domain'),
+    Mutant('extension-tail-one-short', ZC, 'get_extended_ZF',
+           [('replace', 'root_seq[0:size - current_size]', 'root_seq[0:size - current_size - 1]')], r'C18\.e:get_extended_ZF:many-repeats'),
+    Mutant('extension-tail-from-index-1', ZC, 'get_extended_ZF',
+           [('replace', 'root_seq[0:size - root_seq_size]', 'root_seq[1:size - root_seq_size]')], r'C18\.e:get_extended_ZF:one-repeat'),
     Mutant('lookup-strict-less', RS, 'RootSequence._get_largest_prime_lower_than_number',
            [('replace', '_SMALL_PRIME_LIST <= seq_size', '_SMALL_PRIME_LIST < seq_size')], r'C18\.a:.*lookup'),
     Mutant('srs-uses-12-shifts', SRS, 'get_srs_seq', [('replace', 'n_cs, 8)', 'n_cs, 12)')], r'C18\.b:get_srs_seq'),
